@@ -1075,7 +1075,8 @@ func c16RunMap(rep *Report, it *c16Item, now time.Time) {
 	replay := func(kind string, extra map[string]any) map[string]any {
 		m := map[string]any{"kind": kind, "vector": v, "cfg": v.Cfg, "token": it.token, "cookie_name": it.cookie,
 			"now": now.Format(time.RFC3339Nano), "observed": o, "expect_subject": it.expSubject,
-			"expect_attrs": expF, "expect_attrs_by_name": expN, "symbols": it.sym, "map_class": v.Class, "own_root": it.d.root}
+			"expect_attrs": expF, "expect_attrs_by_name": expN, "symbols": it.sym, "map_class": v.Class, "own_root": it.d.root,
+			"remint": true, "mint_age": it.mintAge, "map_subject": v.In.Subject, "life_stmts": it.stmts, "life_authn": it.authn}
 		for k, x := range extra {
 			m[k] = x
 		}
@@ -1219,6 +1220,8 @@ func init() {
 			LifeAuthn     []string            `json:"life_authn"`
 			LifeEnds      c16LifeEnds         `json:"life_ends"`
 			Remint        bool                `json:"remint"`
+			MintAge       int64               `json:"mint_age"`
+			MapSubject    string              `json:"map_subject"`
 			OwnRoot       string              `json:"own_root"`
 			MintRoot      string              `json:"mint_root"`
 			MintKey       string              `json:"mint_key"`
@@ -1299,6 +1302,29 @@ func init() {
 			c16JudgeLife(rep, r.Key, &v, o, r.ExpectSubject, r.ExpectAttrs, r.ExpectByName, func() map[string]any { return nil })
 			return len(rep.Violations) > 0, fmt.Sprintf("class=%s age=%d lifetime=%d handler_ran=%v outcome=%s subject=%q", v.Class, v.In.Age, v.Cfg.Life, o.Ran, o.Outcome, o.Subject)
 		case "map":
+			if r.Remint {
+				// the assertion is presented again to the CreateSession of the tree under replay, mint_age seconds
+				// before now (the token string of a changed mint would prove nothing on another tree)
+				var a *saml.Assertion
+				switch r.MapSubject {
+				case "nameid":
+					a = c16BuildAssertion(&r.ExpectSubject, true, r.LifeStmts, r.LifeAuthn)
+				case "noNameID":
+					a = c16BuildAssertion(nil, true, r.LifeStmts, r.LifeAuthn)
+				case "emptyNameID":
+					empty := ""
+					a = c16BuildAssertion(&empty, true, r.LifeStmts, r.LifeAuthn)
+				default:
+					a = c16BuildAssertion(nil, false, r.LifeStmts, r.LifeAuthn)
+				}
+				saml.TimeNow = func() time.Time { return time.Unix(now.Unix()-r.MintAge, int64(now.Nanosecond())) }
+				tok, err := c16Mint(d, a)
+				saml.TimeNow = func() time.Time { return now }
+				if err != nil {
+					return true, fmt.Sprintf("CreateSession: %v", err)
+				}
+				hdr = r.CookieName + "=" + tok
+			}
 			o := c16Request(d, hdr, nil, d.m.RequireAccount)
 			bad := !o.Ran || o.Subject != r.ExpectSubject ||
 				(r.MapClass == "MustExact" && !c16SameAttrs(o.Attrs, r.ExpectAttrs) && !c16SameAttrs(o.Attrs, r.ExpectByName))
